@@ -158,7 +158,7 @@ def _c09_crash(ctx):
     from . import crash
     prop, tier, wd, rng = ctx["prop"], ctx["tier"], ctx["wd"], ctx["rng"]
     C.go_build(["crashdrive"])
-    nh, maxp = (1, 30) if tier == "quick" else (30, None)
+    nh, maxp = (1, 30) if tier == "quick" else (10, None)
     hists = []
     cdir = os.path.join(C.VERIF, "corpus", prop)
     if os.path.isdir(cdir):
@@ -1338,7 +1338,7 @@ def _leg_check(ctx):
         if ctx.get("replay"):
             cases = [l.split() for l in open(ctx["replay"]) if l.strip() and not l.startswith("#")]
         else:
-            for _ in range(1 if tier == "quick" else 25):
+            for _ in range(1 if tier == "quick" else 8):
                 cases.append([str(rng.randint(1, 10**6)), str(rng.choice((8, 12))), str(rng.choice((60, 100, 300))), str(rng.choice((80, 100, 120)))])
         for seed_s, bits_s, imax_s, pmax_s in cases:
             tdir = os.path.join(wd, "legcrash-%s" % seed_s); shutil.rmtree(tdir, ignore_errors=True); os.makedirs(tdir)
